@@ -81,3 +81,11 @@ Definition kmust {A W} (r : res (list N * Z * W * bool)) (k : list N -> Z -> W -
 
 (* bytes.Equal(a, b) *)
 Definition go_bytes_equal (a b : list N) : bool := bytes_eqb a b.
+
+(* make([]byte, n) for a constant n *)
+Definition go_make (n : Z) : list N := repeat 0%N (Z.to_nat n).
+(* aes.NewCipher(key) succeeds *)
+Definition go_aes_key_ok (key : list N) : bool := aes_key_ok key.
+(* x.( *rsa.PublicKey) on the interface returned by x509.ParsePKIXPublicKey: panics on nil and on another key type *)
+Definition kassert_rsa {A PUB} (is_rsa : PUB -> bool) (o : option PUB) (k : PUB -> res A) : res A :=
+  match o with Some pk => if is_rsa pk then k pk else Panic | None => Panic end.
